@@ -319,7 +319,11 @@ func opPipe(st *state, args []string) []string {
 	return []string{"res ok"}
 }
 
+// addrOf: 4 or 16 address bytes; more than 16 bytes are an IPv6 address followed by its zone (fe80::1%eth0)
 func addrOf(b []byte) (netip.Addr, bool) {
+	if len(b) > 16 {
+		return netip.AddrFrom16([16]byte(b[:16])).WithZone(string(b[16:])), true
+	}
 	return netip.AddrFromSlice(b)
 }
 
